@@ -363,9 +363,9 @@ def effectRefuter (cs : List CStep) (pre body post : List Step) : Option String 
 
 /-- the effect steps the context manager executes on entering when step `fault` (if any) raises: what a failed run finds
 on disk although `generate()` itself has not reached its write loop -/
-def ctxEffectsBefore (cs : List CStep) (fault : Option Nat) : List String :=
+def ctxEffectsBefore (cs : List CStep) (fault : Option Nat) : List CStep :=
   (((ctxEnter cs).zipIdx.filter (fun p => match fault with | some i => decide (p.2 < i) | none => true)).map (·.1)).filter
-    (·.kind.isFsEffect) |>.map (·.what)
+    (·.kind.isFsEffect)
 
 /-! ### where the parse (and with it the formatting stage) runs -/
 
